@@ -55,7 +55,7 @@ SPLINE_UNCOVERED = []
 
 CHECKS = {
     "C04": {
-        "units": ["dateroll"],
+        "units": ["dateroll", "calendars"],
         "kani": {"quick": ["chrono_view_is_days_from_civil", "chrono_from_ymd_validity"], "thorough": ["chrono_view_is_days_from_civil", "chrono_from_ymd_validity", "chrono_add_days", "chrono_sub_days"]},
         "level": "proof",
         "assumptions": CHRONO_ASSUMPTIONS + [
@@ -66,7 +66,7 @@ CHECKS = {
         ],
     },
     "C05": {
-        "units": ["dateroll"],
+        "units": ["dateroll", "calendars"],
         "kani": {"quick": ["std_i8_unsigned_abs", "chrono_view_is_days_from_civil", "chrono_from_ymd_validity"], "thorough": ["std_i8_unsigned_abs", "chrono_view_is_days_from_civil", "chrono_from_ymd_validity", "chrono_add_days", "chrono_sub_days"]},
         "level": "proof",
         "assumptions": CHRONO_ASSUMPTIONS + [
@@ -221,7 +221,7 @@ CHECKS = {
         ],
     },
     "C10": {
-        "units": ["fx"],
+        "units": ["fx", "dual_core", "dual_ops"],
         "level": "proof",
         "assumptions": CHRONO_ASSUMPTIONS + DUAL_ASSUMPTIONS + [
             "create_fx_array as CALLED by try_new / update / set_ad_order is an ASSUMED deterministic function fx_build(currencies, quotes, order): it fails or succeeds independently of the order, returns a square matrix of the requested order, and its values do not depend on the order (axiom_fx_build)",
